@@ -359,3 +359,12 @@ func sortRanges(rs []repRange) {
 		return rs[i].e < rs[j].e
 	})
 }
+
+func sortedInts(m map[int]bool) []int {
+	var out []int
+	for k := range m {
+		out = append(out, k)
+	}
+	sort.Ints(out)
+	return out
+}
